@@ -212,7 +212,7 @@ class Run:
     def __init__(self, func_node, *, oracle=None, raiser=None, max_iter=2,
                  max_paths=20000, stable=None, params_env=None,
                  pure_calls=None, body=None, loop_iters=None,
-                 declared_raises=False):
+                 declared_raises=False, inline_resolver=None):
         self.node = func_node
         self.oracle = oracle            # f(atom_ast, run) -> True/False/None
         self.raiser = raiser            # f(Event) -> None | set(names) | '*'
@@ -222,6 +222,9 @@ class Run:
         self.stable = stable or (lambda attr: False)
         self.pure_calls = pure_calls or set()
         self.declared_raises = declared_raises
+        self.inline_resolver = inline_resolver
+        self.inline_depth = 0
+        self.inlined = []
         self.symdefs = {}
         self.counter = 0
         self.cut = 0
@@ -271,16 +274,17 @@ class Run:
                              'at': len(st.events), 'name': name}
         return ast.Name(id=sid, ctx=ast.Load())
 
-    def expand(self, node, depth=8):
-        """Replace value symbols by their defining expressions."""
+    def expand(self, node, depth=8, keep=None):
+        """Replace value symbols by their defining expressions (symbols
+        for which keep(symdef) is true stay opaque)."""
         run = self
 
         class X(ast.NodeTransformer):
             def visit_Name(self, n):
                 d = run.symdefs.get(n.id)
                 if d and d['kind'] in ('assign', 'item') and depth > 0 and \
-                        d['expr'] is not None:
-                    return run.expand(d['expr'], depth - 1)
+                        d['expr'] is not None and not (keep and keep(d)):
+                    return run.expand(d['expr'], depth - 1, keep)
                 return n
         return X().visit(copy.deepcopy(node))
 
@@ -552,6 +556,15 @@ class Run:
                         keywords=[ast.keyword(arg=k.arg, value=v)
                                   for k, v in zip(node.keywords, kvs)])
                     ast.copy_location(call, node)
+                    target = None
+                    if self.inline_resolver is not None and not maybe and \
+                            self.inline_depth < 3:
+                        target = self.inline_resolver(node)
+                    if target is not None:
+                        inl = self.inline_call(target, call, node, s3)
+                        if inl is not None:
+                            out += inl
+                            continue
                     ev = self.emit(s3, 'call', node, call, maybe=maybe)
                     self.invalidate_on_call(s3, ev)
                     types = self.raiser(ev) if self.raiser else None
@@ -562,6 +575,68 @@ class Run:
                             types=None if types == '*' else set(types))))
                     out.append((s3, call, None))
         return out
+
+    def inline_call(self, fnode, call, node, st):
+        """Execute the body of a helper introduced after the rules were
+        written in the caller's state: its events and conditions become part
+        of the caller's path.  -> list of (state, value, signal) or None when
+        the call cannot be bound."""
+        a = fnode.args
+        params = [x.arg for x in a.posonlyargs + a.args]
+        if params[:1] in (['self'], ['cls']) and \
+                isinstance(call.func, ast.Attribute):
+            self_val = call.func.value
+            params = params[1:]
+            env = {(a.posonlyargs + a.args)[0].arg: self_val}
+        else:
+            env = {}
+        if a.vararg or a.kwarg or any(isinstance(x, ast.Starred)
+                                      for x in call.args) or \
+                any(k.arg is None for k in call.keywords):
+            return None
+        if len(call.args) > len(params):
+            return None
+        for p_, v in zip(params, call.args):
+            env[p_] = v
+        kwonly = [x.arg for x in a.kwonlyargs]
+        for k in call.keywords:
+            if k.arg not in params + kwonly or k.arg in env:
+                return None
+            env[k.arg] = k.value
+        nd = len(a.defaults)
+        for p_, d in zip(params[len(params) - nd:], a.defaults):
+            env.setdefault(p_, copy.deepcopy(d))
+        for p_, d in zip(kwonly, a.kw_defaults):
+            if d is not None:
+                env.setdefault(p_, copy.deepcopy(d))
+        if any(p_ not in env for p_ in params + kwonly):
+            return None
+        if any(isinstance(x, (ast.Yield, ast.YieldFrom))
+               for x in ast.walk(fnode)):
+            return None
+        caller_env = st.env
+        st.env = env
+        self.emit(st, 'inline', node, call, extra=fnode.name)
+        self.inlined.append(fnode.name)
+        self.inline_depth += 1
+        try:
+            outs = self.block(body_of(fnode), st)
+        finally:
+            self.inline_depth -= 1
+        res = []
+        for s2, sig in outs:
+            s2.env = dict(caller_env)
+            if sig is None:
+                res.append((s2, const(None), None))
+            elif sig.kind == 'return':
+                res.append((s2, sig.value if sig.value is not None
+                            else const(None), None))
+            elif sig.kind in ('raise', 'cut'):
+                res.append((s2, None, sig))
+            else:
+                raise AnalysisError('break/continue escapes inlined helper '
+                                    + fnode.name)
+        return res
 
     # ------------------------------------------------------ conditions
     def is_pure_call(self, call):
@@ -704,6 +779,15 @@ class Run:
             if sig is not None:
                 out.append((s, None, sig))
                 continue
+            if isinstance(v, ast.BoolOp) or (
+                    isinstance(v, ast.UnaryOp) and
+                    isinstance(v.op, ast.Not) and
+                    isinstance(v.operand, ast.BoolOp)):
+                # a boolean expression handed back by an inlined helper (or
+                # substituted for a local): split it like a test, without
+                # evaluating anything again
+                out += self.branch_evaluated(v, s, test)
+                continue
             atom, pol = self.normal_atom(v)
             t = self.decide(atom, s)
             deps, vol = self.deps_of(atom)
@@ -718,6 +802,36 @@ class Run:
                     s2.conds.append(Cond(atom, t, len(s2.events), deps, vol,
                                          test))
                     out.append((s2, t if pol else (not t), None))
+        return out
+
+    def branch_evaluated(self, v, st, node):
+        """split an already evaluated boolean value into atoms"""
+        if isinstance(v, ast.UnaryOp) and isinstance(v.op, ast.Not):
+            return [(s, not t, sig)
+                    for s, t, sig in self.branch_evaluated(v.operand, st,
+                                                           node)]
+        if isinstance(v, ast.BoolOp):
+            is_and = isinstance(v.op, ast.And)
+            cur = [st]
+            done = []
+            for x in v.values:
+                nxt = []
+                for s in cur:
+                    for s2, t, sig in self.branch_evaluated(x, s, node):
+                        if t == (not is_and):
+                            done.append((s2, t, None))
+                        else:
+                            nxt.append(s2)
+                cur = nxt
+            return done + [(s, is_and, None) for s in cur]
+        atom, pol = self.normal_atom(v)
+        t = self.decide(atom, st)
+        deps, vol = self.deps_of(atom)
+        out = []
+        for tv in ((t,) if t is not None else (True, False)):
+            s2 = st.fork()
+            s2.conds.append(Cond(atom, tv, len(s2.events), deps, vol, node))
+            out.append((s2, tv if pol else (not tv), None))
         return out
 
     # ------------------------------------------------------ statements
@@ -1206,7 +1320,37 @@ class Run:
     s_AsyncWith = s_With
 
 
+def new_helper_resolver(finfo, model):
+    """Resolver for Run(inline_resolver=...): a call that resolves (CHA)
+    to exactly one in-package function whose name is not in the frozen table
+    of names known when the rules were written is a helper introduced later
+    and is looked through."""
+    from .known_names import KNOWN_NAMES
+
+    def resolve(call_node):
+        f = call_node.func
+        name = f.attr if isinstance(f, ast.Attribute) else \
+            f.id if isinstance(f, ast.Name) else None
+        if name is None or name in KNOWN_NAMES:
+            return None
+        if isinstance(f, ast.Attribute) and \
+                not U(f.value) in ('self', 'cls', 'server', 'self.server',
+                                   'self.manager', 'self.sio',
+                                   'self.client'):
+            return None
+        kind, tg = model.resolve_call(finfo, call_node)
+        if kind != 'internal' or len({id(t.node) for t in tg}) != 1:
+            return None
+        t = tg[0]
+        if t.node is finfo.node or len(list(ast.walk(t.node))) > 600:
+            return None
+        return t.node
+    return resolve
+
+
 def run_function(finfo, model=None, **kw):
     if model is not None and 'stable' not in kw:
         kw['stable'] = model.is_stable_attr
+    if model is not None and 'inline_resolver' not in kw:
+        kw['inline_resolver'] = new_helper_resolver(finfo, model)
     return Run(finfo.node, **kw)
